@@ -264,7 +264,9 @@ func (this *Parser) Parse(scanner Scanner) (res interface{}, err error) {
 	for acc := false; !acc; {
 		action, ok := this.actTab[this.stack.Top()].Actions[this.nextToken.Type]
 		if !ok {
-			if recovered, errAttrib := this.Error(nil, scanner); !recovered {
+			if recovered, errAttrib := this.Error(nil, scanner); !recovered || this.nextToken != errAttrib.ErrorToken {
+				// "error" is a keyword of the BNF, not a recovery symbol of this parser: never skip
+				// part of a grammar file to make the rest parse.
 				this.nextToken, this.pos = errAttrib.ErrorToken, errAttrib.ErrorPos
 				return nil, this.newError(nil)
 			}
